@@ -6,9 +6,26 @@ outputs, delay states and the alias relation are compared concretely; z3 proves 
 of the CachedModel equal to those of the fresh Model for ALL inputs and every parameter-dependent
 attribute equal for ALL parameter values.  codegen=True (thorough): names / metadata / attributes
 only - numeric agreement of the compiled C behind ca.external is outside the claim.
+
+Besides seven hand-written models the family contains three GENERATED classes (see the generator
+functions below), each aimed at one region of save_model / load_model:
+* delay-pop: delay() models over every population of the symbol categories that save_model indexes
+  (0..2 constants x 0..2 parameters x with/without a fixed input), with several delays per model
+  whose durations have DIFFERENT true dependency sets (literal, bare constant / parameter / fixed
+  input, constant*parameter, parameter+parameter, constant/constant, ...), in both orders, outside
+  and inside a for-loop: the index-encoded duration dependencies must decode to the same symbols;
+* attr: parameter-dependent attributes built from + - * / only, one "special" expression (affine,
+  non-affine but whitelisted such as p1*p2 or p1/p2, or using other opcodes such as p1*p1, 2*p1,
+  max) at every (category, attribute) slot, all other attributes affine - this is the region where
+  variable_metadata_function decides whether to rebuild itself as A*p+b;
+* falsy: String parameters/constants whose value/start/fixed are empty, unset, "0", ... and
+  Real/Integer/Boolean variables of every category whose value/min/max/start/nominal/fixed are
+  0, 0.0, -0.0, false (values that a truthiness test confuses with "not given").
 """
+import itertools
 import os
 import shutil
+import sqlite3
 import sys
 import tempfile
 import traceback
@@ -131,6 +148,162 @@ OPTSETS = [
     ("expand", {"expand_vectors": True, "detect_aliases": True}),
 ]
 
+# option sets for the generated classes ("pvals" makes attributes numeric MX constants, i.e. the
+# MX_INDEPENDENT branch of load_model; it is not used for delay models, see C22 known finding)
+O_PLAIN, O_ALIASES, O_INLINE, O_EXPAND = OPTSETS
+O_CONSTS = ("consts", {"replace_constant_values": True})
+O_PVALS = ("pvals", {"replace_parameter_expressions": True, "replace_parameter_values": True})
+
+
+def delay_pop_models(tier):
+    """{id: text}: delay models over populations of the symbol categories indexed by save_model."""
+    out = {}
+    for nc, npar, uf in itertools.product((0, 1, 2), (0, 1, 2), (False, True)):
+        c, p = [f"c{i + 1}" for i in range(nc)], [f"p{i + 1}" for i in range(npar)]
+        pool = [("x", "1.5")]                                   # literal: no dependency at all
+        if nc:
+            pool.append(("w", c[-1]))                           # bare constant
+        if npar:
+            pool.append(("2 * x", p[-1]))                       # bare parameter
+        if uf:
+            pool.append(("w + u", "uf"))                        # bare fixed input
+        if nc and npar:
+            pool.append((f"{c[0]} * x + {p[0]}", f"{c[0]} * {p[-1]} + 1"))   # constant and parameter
+            pool.append(("x", f"{p[0]} / {c[-1]}"))
+        if npar >= 2:
+            pool.append(("w", "p1 + p2"))
+        if nc >= 2:
+            pool.append(("x - w", "c1 / c2"))
+        if uf and npar:
+            pool.append(("x", "uf + p1"))
+        if uf and nc:
+            pool.append(("w * u", "uf * c1"))
+        loop_dur = f"{c[0]} * {p[0]}" if nc and npar else (p[0] if npar else (c[0] if nc else ("uf" if uf else "2.5")))
+        for order in ("fwd", "rev"):
+            delays = pool if order == "fwd" else pool[::-1]
+            decl = [f"  constant Real {n} = {1.5 + i};" for i, n in enumerate(c)]
+            decl += [f"  parameter Real {n} = {2 + i};" for i, n in enumerate(p)]
+            decl += ["  input Real u;"] + (["  input Real uf(fixed = true);"] if uf else [])
+            decl += ["  Real x(start = 1);", "  Real w;", "  Real v[2], z[2];"]
+            decl += [f"  Real y{i + 1};" for i in range(len(delays))]
+            eqs = ["  der(x) = -x + u;", "  w = 2 * x" + (f" + {c[0]}" if nc else "") + (f" * {p[0]}" if npar else "") + ";"]
+            body = [f"  y{i + 1} = delay({e}, {d});" for i, (e, d) in enumerate(delays)]
+            loop = ["  for i in 1:2 loop", "    v[i] = i * x;", f"    z[i] = delay(3 * v[i], {loop_dur});", "  end for;"]
+            eqs += (body + loop) if order == "fwd" else (loop + body)
+            out[f"delay-pop[c={nc},p={npar},uf={int(uf)},{order}]"] = "model M\n" + "\n".join(decl) + "\nequation\n" + "\n".join(eqs) + "\nend M;\n"
+    return out
+
+
+ATTR_SPECIALS = [  # (id, expression, kind)
+    ("sum", "p1 + p2 - 1", "affine"), ("scaled", "3 * p1 - p2 / 4", "affine"), ("neg", "-p3", "affine"),
+    ("prod", "p1 * p2", "whitelisted-nonaffine"), ("quot", "p1 / p2", "whitelisted-nonaffine"),
+    ("prod3", "p1 * p2 * p3", "whitelisted-nonaffine"), ("prodsum", "(p1 + 1) * (p2 - 1)", "whitelisted-nonaffine"),
+    ("quotsum", "p3 / (p1 + p2)", "whitelisted-nonaffine"), ("negprod", "p3 - p1 * p2", "whitelisted-nonaffine"),
+    ("square", "p1 * p1", "other-opcode"), ("twice", "2 * p1", "other-opcode"), ("inv", "1 / p2", "other-opcode"),
+    ("max", "max(p1, p2)", "other-opcode"), ("abs", "abs(p3)", "other-opcode"),
+]
+ATTR_SLOTS = [  # (category, attribute): where the special expression is put
+    ("state", "max"), ("state", "start"), ("state", "nominal"), ("alg", "min"), ("alg", "start"), ("vec", "max"),
+    ("input", "max"), ("input", "min"), ("param", "max"), ("param", "value"), ("const", "max"),
+]
+QUICK_SLOTS = {("state", "max"), ("alg", "start"), ("vec", "max"), ("input", "min"), ("param", "value"), ("const", "max")}
+
+
+def attr_models(tier):
+    """{id: text}: every other attribute is affine in p1..p3 with + - * / only (no 2*p, no min/max)."""
+    out = {}
+    for (sid, expr, kind), slot in itertools.product(ATTR_SPECIALS, ATTR_SLOTS):
+        if tier == "quick" and slot not in QUICK_SLOTS:
+            continue
+        at = {("state", "min"): "-p2", ("state", "max"): "p1 + p2", ("state", "start"): "p1", ("state", "nominal"): "p1 + 1",
+              ("alg", "min"): "p1 - 4", ("alg", "max"): "p3 - p1 / 4", ("alg", "start"): "3 * p2",
+              ("vec", "min"): "-p1", ("vec", "max"): "p1 + p3",
+              ("input", "min"): "-p1", ("input", "max"): "2.5 * p2",
+              ("param", "min"): "p1 - 1", ("param", "max"): "p1 + p2", ("param", "value"): "p2 + 1",
+              ("const", "max"): "p2 + p3"}
+        at[slot] = expr
+        a = lambda c, *names: ", ".join(f"{n} = {at[(c, n)]}" for n in names)
+        out[f"attr[{sid}@{slot[0]}.{slot[1]}]"] = f"""model M
+  parameter Real p1 = 2;
+  parameter Real p2 = 3;
+  parameter Real p3 = 5;
+  parameter Real q({a("param", "min", "max")}) = {at[("param", "value")]};
+  parameter Real r;
+  constant Real k({a("const", "max")}) = 1;
+  Real x({a("state", "start", "min", "max", "nominal")});
+  Real x2(start = 1.5, max = r);
+  Real y({a("alg", "min", "max", "start")});
+  Real v[2](each max = {at[("vec", "max")]}, each min = {at[("vec", "min")]});
+  input Real u({a("input", "min", "max")}, fixed = true);
+  input Real u2(max = p3);
+  output Real z;
+equation
+  der(x) = -p1 * x + u + y;
+  der(x2) = -x2 + u2 * q;
+  y = k * x + p2;
+  v[1] = x + r; v[2] = y - x2;
+  z = y;
+end M;
+"""
+    return out
+
+
+def falsy_models(tier):
+    """{id: text}: values a truthiness test cannot tell from 'not given'."""
+    out = {}
+    svalues = [("abc", ' = "abc"'), ("empty", ' = ""'), ("unset", ""), ("zero", ' = "0"'), ("false", ' = "false"'), ("space", ' = " "')]
+    for (fid, fixed), (tid, start) in itertools.product([("nofixed", None), ("fixed", "fixed = true"), ("unfixed", "fixed = false")],
+                                                        [("nostart", None), ("emptystart", 'start = ""'), ("start", 'start = "s"')]):
+        mods = ", ".join(m for m in (fixed, start) if m)
+        mods = f"({mods})" if mods else ""
+        decl = [f"  {kind} String {kind[0]}_{vid}{mods}{val};" for kind in ("parameter", "constant") for vid, val in svalues
+                if not (kind == "constant" and vid == "unset")]
+        out[f"falsy-str[{fid},{tid}]"] = "model M\n" + "\n".join(decl) + "\n  parameter Real g = 0.5;\n  Real x(start = 1);\nequation\n  der(x) = -g * x;\nend M;\n"
+    for zid, z, b in [("zero", "0", "false"), ("zerof", "0.0", "false"), ("negzero", "-0.0", "false"), ("one", "1", "true")]:
+        zi = "0" if zid != "one" else "1"
+        out[f"falsy-num[{zid}]"] = f"""model M
+  parameter Real r0 = {z};
+  parameter Real r1(min = {z}, max = {z}, start = {z}, nominal = {z}, fixed = {b}) = {z};
+  parameter Real r2;
+  parameter Integer n0 = {zi};
+  parameter Integer n1(min = {zi}, max = {zi});
+  parameter Boolean b0 = {b};
+  parameter Boolean b1(fixed = true) = {b};
+  constant Real c0 = {z};
+  constant Integer ci = {zi};
+  constant Boolean cb = {b};
+  Real x(start = {z}, min = {z}, max = {z}, nominal = {z}, fixed = {b});
+  Real y(start = {z}, fixed = true);
+  Real v[2](each start = {z}, each min = {z});
+  Integer k(start = {zi}, min = {zi});
+  Boolean b(start = {b});
+  input Real u(min = {z}, fixed = {b});
+  input Real uf(max = {z}, fixed = true);
+equation
+  der(x) = -x + u + uf;
+  y = r0 + r1 + n0 + r2;
+  v[1] = y; v[2] = c0;
+  k = n0 + ci;
+  b = b0;
+end M;
+"""
+    return out
+
+
+def generated_items(tier):
+    items = []
+    thorough = tier == "thorough"
+    for mid, text in delay_pop_models(tier).items():
+        for on, o in [O_PLAIN, O_ALIASES, O_INLINE, O_EXPAND] + ([O_CONSTS] if thorough else []):
+            items.append((mid, text, on, o, False))
+    for mid, text in attr_models(tier).items():
+        for on, o in [O_PLAIN, O_PVALS] + ([O_ALIASES, O_INLINE, O_EXPAND] if thorough else []):
+            items.append((mid, text, on, o, False))
+    for mid, text in falsy_models(tier).items():
+        for on, o in [O_PLAIN, O_INLINE, O_PVALS] + ([O_ALIASES, O_EXPAND] if thorough else []):
+            items.append((mid, text, on, o, False))
+    return items
+
 
 def attr_term(val, psyms, pnames, div, numel):
     """z3 terms (list) of one attribute value (python number, DM, list or MX in the parameters)."""
@@ -164,6 +337,13 @@ def compare(col, case, text, fresh, cached, codegen):
         col.bump("concrete_comparisons")
         if a != b:
             col.violation(f"{case}:{cat}", f"{cat} differ: {a} vs {b}", {"model_text": text})
+        # same again with the Python type of every field ('' vs None, False vs 0, ...)
+        ta = [(v.name,) + tuple((type(x).__name__, x) for x in (v.value, v.start, v.fixed)) for v in getattr(fresh, cat)]
+        tb = [(v.name,) + tuple((type(x).__name__, x) for x in (v.value, v.start, v.fixed)) for v in getattr(cached, cat)]
+        col.bump("concrete_comparisons")
+        col.bump("string_variables", len(ta))
+        if ta != tb:
+            col.violation(f"{case}:{cat}:typed", f"{cat} differ in value or field type: {ta} vs {tb}", {"model_text": text})
     for what in ["outputs", "delay_states"]:
         col.bump("concrete_comparisons")
         if list(getattr(fresh, what)) != list(getattr(cached, what)):
@@ -184,6 +364,11 @@ def compare(col, case, text, fresh, cached, codegen):
                 a, b = getattr(vf, attr), getattr(vc, attr)
                 n = vf.symbol.numel()
                 ta, tb = attr_term(a, pf, pnames, div, n), attr_term(b, pc, pnames, div, n)
+                if not isinstance(a, ca.MX) and not isinstance(b, ca.MX):
+                    # plain Python values are pickled: the cached one must have exactly the same type
+                    col.bump("concrete_comparisons")
+                    if type(a).__name__ != type(b).__name__:
+                        col.violation(f"{case}:{vf.symbol.name()}.{attr}:pytype", f"attribute {a!r} ({type(a).__name__}) cached as {b!r} ({type(b).__name__})", {"model_text": text})
                 if ta is None or tb is None:
                     if repr(a) != repr(b):
                         col.violation(f"{case}:{vf.symbol.name()}.{attr}", f"attribute {a!r} vs cached {b!r}", {"model_text": text})
@@ -231,6 +416,20 @@ def compare(col, case, text, fresh, cached, codegen):
                     col.bump("function_elements", n)
 
 
+def affine_rebuild_taken(model):
+    """True when Model.variable_metadata_function replaced its output by the affine form A*p+b
+    (observed on the unexpanded MX Function: only the rebuilt one has the input symbol 'in_var')."""
+    keep = model._expand_mx_func
+    try:
+        model._expand_mx_func = lambda x: x
+        i = model.variable_metadata_function.mx_in(0)
+        return bool(i.is_symbolic() and i.name() == "in_var")
+    except Exception:
+        return False
+    finally:
+        model._expand_mx_func = keep
+
+
 def _nanpt(pt):
     d = pipeline._Default(pt)
     d["__nan__"] = float("nan")
@@ -238,9 +437,21 @@ def _nanpt(pt):
     return d
 
 
+def private_parse_cache():
+    """pymoca's parser keeps a sqlite text cache under $XDG_CACHE_HOME that every process on the
+    machine shares; under load it raises 'database is locked' (the subject of C02, not of this
+    property).  Give each worker process its own cache folder below the run's scratch root."""
+    root = os.environ.get("VERIF_C19_SCRATCH")
+    if root:
+        d = os.path.join(root, f"xdg{os.getpid()}")
+        os.makedirs(d, exist_ok=True)
+        os.environ["XDG_CACHE_HOME"] = d
+
+
 def check(col, mid, text, oname, opts, codegen=False):
     case = f"{mid}|{oname}" + ("|codegen" if codegen else "")
-    d = tempfile.mkdtemp(prefix="verif_c19_")
+    private_parse_cache()
+    d = tempfile.mkdtemp(prefix="verif_c19_", dir=os.environ.get("VERIF_C19_SCRATCH"))
     try:
         with open(os.path.join(d, "M.mo"), "w") as f:
             f.write(text)
@@ -249,6 +460,11 @@ def check(col, mid, text, oname, opts, codegen=False):
         try:
             fresh = api.transfer_model(d, "M", dict(o))
         except Exception as e:
+            if isinstance(e, sqlite3.Error) or mid not in MODELS:
+                # environment trouble, or a generated model (all probed to compile) stopped compiling:
+                # neither a pass nor a C19 violation
+                col.harness_error(f"{case}: first transfer_model raised {type(e).__name__}: {str(e)[-300:]}")
+                return
             col.append("unsupported", f"{case}: {type(e).__name__}: {str(e)[-80:]}")
             return
         if isinstance(fresh, api.CachedModel):
@@ -267,6 +483,8 @@ def check(col, mid, text, oname, opts, codegen=False):
             return
         compare(col, case, text, fresh, cached, codegen)
         col.bump("programs")
+        col.bump("models_with_delays", int(bool(fresh.delay_states)))
+        col.bump("affine_metadata_rebuilds", int(affine_rebuild_taken(fresh)))
     finally:
         shutil.rmtree(d, ignore_errors=True)
 
@@ -290,16 +508,42 @@ def main():
     logging.getLogger("pymoca").setLevel(logging.ERROR)
     rep = Report(PROP, args.tier, "translation_validation", args.seed)
     items = [(mid, text, on, o, False) for mid, text in MODELS.items() for on, o in OPTSETS]
+    items += generated_items(args.tier)
+    n_gen = {k: len(f(args.tier)) for k, f in (("delay-pop", delay_pop_models), ("attr", attr_models), ("falsy", falsy_models))}
     if args.tier == "thorough":
         items += [(mid, MODELS[mid], "plain", {}, True) for mid in ("param-attrs", "aliases", "strings")]
-    for col in run_parallel(work, items, args.jobs):
-        rep.merge(col)
+        gen = dict(delay_pop_models("quick"), **attr_models("quick"), **falsy_models("quick"))
+        items += [(mid, gen[mid], "plain", {}, True) for mid in
+                  ("delay-pop[c=1,p=1,uf=0,fwd]", "delay-pop[c=2,p=2,uf=1,rev]", "attr[prod@state.max]", "attr[quot@param.value]",
+                   "attr[sum@input.min]", "falsy-str[nofixed,nostart]", "falsy-str[fixed,emptystart]", "falsy-num[zero]")]
+    scratch = tempfile.mkdtemp(prefix="verif_c19_run_")
+    os.environ["VERIF_C19_SCRATCH"] = scratch
+    try:
+        for col in run_parallel(work, items, args.jobs):
+            rep.merge(col)
+    finally:
+        shutil.rmtree(scratch, ignore_errors=True)
     cov = rep.coverage
     cov["disagreements_checked"] = rep.queries.get("sat", 0)
     cov["functions_encoded"] = ["api.transfer_model / save_model / load_model (executed on real files)",
                                 "the four Functions of Model and CachedModel (SX DAG -> z3)", "MX attribute expressions rebuilt by load_model"]
-    cov["bounds"] = "7 models (parameter-dependent attributes, aliases, delays incl. in loops, strings/Integer/Boolean, arrays, functions) x 4 option sets; all inputs/parameters unbounded reals; codegen: names/metadata only"
-    rep.assumptions += ["pickle / CasADi (de)serialisation executed for real, not modelled", "numeric agreement of code-generated shared libraries is outside the claim",
+    cov["bounds"] = (
+        "7 hand-written models (parameter-dependent attributes, aliases, delays incl. in loops, strings/Integer/Boolean, arrays, "
+        "functions) x 4 option sets; "
+        f"{n_gen['delay-pop']} generated delay models = {{0,1,2}} constants x {{0,1,2}} parameters x with/without fixed input x 2 orders, "
+        "each with 2..11 delay() calls (one inside a 2-iteration for-loop) whose durations are a literal / bare constant / bare parameter / "
+        "bare fixed input / constant*parameter / parameter/constant / p1+p2 / c1/c2 / uf+p1 / uf*c1 as far as the population allows, "
+        "x 4 option sets (thorough: + replace_constant_values); "
+        f"{n_gen['attr']} generated attribute models = {len(ATTR_SPECIALS)} special expressions (3 affine, 6 non-affine with + - * / only, "
+        f"5 with other opcodes) x {len(QUICK_SLOTS) if args.tier == 'quick' else len(ATTR_SLOTS)} (category, attribute) slots, all other "
+        "attributes affine, x option sets plain and replace_parameter_expressions+values (thorough: + aliases, inline, expand); "
+        f"{n_gen['falsy']} generated falsy-value models = 9 String models (value abc/empty/unset/'0'/'false'/' ' for parameter and constant "
+        "x fixed unset/true/false x start unset/''/'s') + 4 numeric models (0, 0.0, -0.0, 1 and false/true in value/min/max/start/"
+        "nominal/fixed of Real/Integer/Boolean parameters, constants, states, algebraic variables, inputs) x 3 option sets (thorough 5); "
+        "all inputs/parameters unbounded reals; codegen (thorough only): names/metadata/attributes only, 3 hand-written + 8 generated models"
+    )
+    rep.assumptions += ["pickle / CasADi (de)serialisation executed for real, not modelled",
+                        "the parser's sqlite text cache is private to each worker process (its concurrency is C02's subject)", "numeric agreement of code-generated shared libraries is outside the claim",
                         "real arithmetic; divisors non-zero"]
     if not cov.get("programs"):
         rep.harness_error("nothing compared")
